@@ -134,7 +134,7 @@ def superTriangle (p : Pt α) (ps : List (Pt α)) : List (Pt α) :=
   let minY' := minY - ((2 : Nat) : α)
   let xMiddle := (minX + maxX) / ((2 : Nat) : α)
   let width := maxX - minX
-  let top : Pt α := (xMiddle, minY' + height * ((20 : Nat) : α))
+  let top : Pt α := (xMiddle, maxY + height * ((20 : Nat) : α) + ((2 : Nat) : α))
   let left : Pt α := (xMiddle - width * ((20 : Nat) : α), minY')
   let right : Pt α := (xMiddle + width * ((20 : Nat) : α), minY')
   [left, top, right]
